@@ -87,7 +87,7 @@ def make_items(ctx, only=None):
             idx = int(n[2:])
             it['wl'] = K.gen_workload(C.Prng(C.mix_seed(ctx.seed, 14, 7, idx)), big=(idx % 3 == 2), swarm=True, splitdbg=True)
             it['wl']['format'] = 'dir' if idx % 4 else 'tar'
-            if idx == 90:
+            if idx in (3, 90):
                 import copy
                 it['wl'] = copy.deepcopy(K.WL_ERROR_PAIRS)     # the exit status is accumulated in completion order from error and change bits
             if idx % 6 == 1:
@@ -167,6 +167,8 @@ def make_plans(ctx, tier, items):
     for name in sorted(items):
         # an input with a listed open finding gets more layouts, so that the finding shows (and is reported as KNOWN-FINDING) in every run
         n = max(K_, 12) if '/'.join(name.split('/')[:2]) in known_inputs or name in known_inputs else K_
+        if items[name]['tool'] == 'abipkgdiff':
+            n = max(n, 12)      # these items have a schedule on top of the layout: more runs each
         for k in range(1, n + 1):
             plans.append({'item': name, 'params': {'k': k, 'layout_seed': C.mix_seed(ctx.seed, 14, 1, 1000 * i + k)}})
         i += 1
